@@ -229,6 +229,41 @@ def interfere(obj) -> None:
                 J.read_aas_json_file(io.StringIO(full), failsafe=failsafe, stripped=stripped, decoder=dec)
 
 
+def scribble(obj) -> int:
+    """edit every mutable typed value (bytearray-based xs:base64Binary / xs:hexBinary) of an object that was READ, in place — what an
+    application may do with its own copy.  Objects returned by different reads are independent: a later read of the same document
+    must not see these edits.  Returns the number of values edited."""
+    from vf import meta
+    n = 0
+    seen = set()
+
+    def walk(o):
+        nonlocal n
+        if id(o) in seen:
+            return
+        seen.add(id(o))
+        try:
+            cls = meta.class_name(o)
+        except TypeError:
+            return
+        for attr, kind in meta.META[cls]:
+            v = getattr(o, attr, None)
+            if v is None:
+                continue
+            if isinstance(v, bytearray):
+                v.extend(b"\xff\xfe"); n += 1
+            elif isinstance(v, (list, set, frozenset, tuple)) or hasattr(v, "__iter__") and not isinstance(v, (str, bytes, dict)):
+                try:
+                    for x in list(v):
+                        walk(x)
+                except TypeError:
+                    pass
+            else:
+                walk(v)
+    walk(obj)
+    return n
+
+
 def check_object(obj, case: dict, how: str = "text") -> Optional[C.Failing]:
     """canon(read(write(x))) == canon(x), through a store document and through the encoder/decoder classes."""
     _quiet()
@@ -253,6 +288,13 @@ def check_object(obj, case: dict, how: str = "text") -> Optional[C.Failing]:
         d = canon.diff(c1, canon.canon(objs2[0]))
         if d:
             return C.Failing(sig_of(d, "json", c1), f"{type(obj).__name__} via {how} stream: {d[:200]}", case, d)
+        if scribble(objs2[0]):
+            # the application edited its copy; the same document read once more still yields what was written
+            objs3 = list(roundtrip_store(model.DictObjectStore([obj]), how))
+            d = canon.diff(c1, canon.canon(objs3[0])) if len(objs3) == 1 else "count"
+            if d:
+                return C.Failing("json:roundtrip:second-read-sees-edits-of-first", f"{type(obj).__name__} via {how} stream, read again after "
+                                 f"the first result was edited in place: {d[:200]}", case, d)
         o3 = json.loads(json.dumps(obj, cls=AASToJsonEncoder), cls=StrictAASFromJsonDecoder)
         d = canon.diff(c1, canon.canon(o3)) if not isinstance(o3, dict) else "decoder returned a dict"
         if d:
